@@ -47,6 +47,9 @@ impl<T> ResettableOnceLock<T> {
         if let Some(elt) = self.get() {
             return elt;
         }
+        #[cfg(feature = "verif-hooks")]
+        let _verif_section =
+            crate::verif::section(crate::verif::site::ONCE, self as *const Self as usize);
         self.update.call_once_force(|_| {
             // SAFETY: We are calling this within `call_once_force` which guarantees a single
             // thread will ever run at a given time.
